@@ -145,7 +145,7 @@ def gen_cases(rng, mode, n, prefix="g"):
 # ------------------------------------------------------------------------------------------------------
 # running
 
-def run_impl(ctx, impl, mode, cases, tag, timeout=180):
+def run_impl(ctx, impl, mode, cases, tag, timeout=60):
     """-> (logs by case id, status) ; status 'ok' | 'crash' | 'timeout'.  The harness flushes after every case,
     so after a crash / hang the first case without output is the culprit."""
     cf = os.path.join(ctx.work, tag + ".txt")
@@ -253,7 +253,8 @@ def minimise(ctx, impl, mode, case, what):
     return cur
 
 
-def check_mode(ctx, md, impl, res_ok, stats):
+def prepare_mode(ctx, md):
+    """build the extracted model and the list of cases (corpus first) of one mode"""
     mode = md["mode"]
     model = conc_check.build_model(ctx, md["extract"], tag="model_" + mode)
     n = QUICK_N[mode] * (5 if ctx.thorough() else 1)
@@ -266,8 +267,33 @@ def check_mode(ctx, md, impl, res_ok, stats):
                 cases.append(c)
     ncorpus = len(cases)
     cases += gen_cases(ctx.rng, mode, n)
-    mlog = run_model(ctx, model, cases, "m_" + mode)
-    ilog, status = run_impl(ctx, impl, mode, cases, "i_" + mode)
+    return {"md": md, "model": model, "cases": cases, "ncorpus": ncorpus}
+
+
+CHUNK = 100
+
+def run_all(ctx, impl, preps):
+    """model and implementation runs of all modes, in parallel processes (chunks of CHUNK cases)"""
+    from concurrent.futures import ThreadPoolExecutor
+    jobs = []
+    with ThreadPoolExecutor(max_workers=max(2, min(12, vcheck.NCPU - 2))) as ex:
+        for p in preps:
+            mode = p["md"]["mode"]
+            p["mfut"] = ex.submit(run_model, ctx, p["model"], p["cases"], "m_" + mode)
+            p["ifuts"] = [ex.submit(run_impl, ctx, impl, mode, p["cases"][k:k + CHUNK], "i_%s_%d" % (mode, k)) for k in range(0, len(p["cases"]), CHUNK)]
+        for p in preps:
+            p["mlog"] = p["mfut"].result()
+            p["ilog"] = {}; p["status"] = "ok"
+            for f in p["ifuts"]:
+                logs, st = f.result()
+                p["ilog"].update(logs)
+                if st != "ok" and p["status"] == "ok":
+                    p["status"] = st
+
+
+def check_mode(ctx, p, impl, stats):
+    md = p["md"]; mode = md["mode"]; cases = p["cases"]; ncorpus = p["ncorpus"]
+    mlog = p["mlog"]; ilog = p["ilog"]; status = p["status"]
     st = stats.setdefault(mode, {"cases": 0, "corpus": ncorpus, "diverged": 0, "steps": 0, "contended": 0, "distinct_logs": 0, "distinct_contended": 0,
                                  "features": {}, "sched_kinds": {}, "monitor_violations": 0})
     shapes = set(); cshapes = set(); first_div = None; found_real = False
@@ -372,8 +398,10 @@ def run(ctx):
     if ctx.replay:
         replay(ctx, impl)
     else:
-        for md in MODES:
-            s = check_mode(ctx, md, impl, res.ok, stats)
+        preps = [prepare_mode(ctx, md) for md in MODES]
+        run_all(ctx, impl, preps)
+        for p in preps:
+            s = check_mode(ctx, p, impl, stats)
             if s is not None:
                 samples.append({k: s[k] for k in ("mode", "cfg", "threads", "sched")})
     if not res.ok:
